@@ -56,6 +56,10 @@ def run(ck: vlib.Check):
             jobs.append({"kind": "save", "base": b, "edit": "bigger", "seed": s})
         for files in (["wav"], ["ogg"], ["wav", "ogg"], ["ogg", "wav"]):
             jobs.append({"kind": "audio", "base": b, "files": files})
+    # file names that mean something to one path convention or another (a drive-like "x:", dots, blanks, a tilde, brackets):
+    # on this platform they are plain names, and the canonical member path is staredit\\wav\\<that name>
+    for nm in ("1:30.wav", "a:b.wav", "x.y.z.wav", "~tilde.wav", "[b]racket.wav", "two  blanks.wav", "nul.wav"):
+        jobs.append({"kind": "audio", "base": "scx1", "files": ["wav"], "names": [nm]})
     # sounds with one file name in different archive directories (and different lengths), in both listing orders
     for b in ("scx1", "scm0"):
         jobs.append({"kind": "same-basename", "base": b,
